@@ -55,7 +55,7 @@ def run(ctx):
                     meta.append(("decide", shape, sps, k))
                     ctx.case(("decide", shape, sps, k < sps // 2, vout > 0))
     # ---- random: sps 2..128 odd included, dyadic amplitudes, every instant for some, noise in SAMPLER
-    for it in range(300 if T else 70):
+    for it in range(1500 if T else 70):
         sps = rnd.choice([2, 3, 7, 16, 17, 31, 32, 63, 64, 127, 128, rnd.randrange(2, 129)])
         with warnings.catch_warnings():
             warnings.simplefilter("ignore")
